@@ -288,13 +288,9 @@ func optionalAuthThird(w http.ResponseWriter, r *http.Request) (mustAuth bool) {
 func optionalAuth(
 	h func(http.ResponseWriter, *http.Request),
 ) (wrapped func(http.ResponseWriter, *http.Request)) {
-	// Users can only be added by the initial configuration, after which all
-	// handlers are registered anew, so there is no need to take the lock on
-	// every request.
-	authRequired := globalContext.auth != nil && globalContext.auth.authRequired()
-
 	return func(w http.ResponseWriter, r *http.Request) {
 		p := r.URL.Path
+		authRequired := globalContext.auth != nil && globalContext.auth.authRequired()
 		if p == "/login.html" {
 			cookie, err := r.Cookie(sessionCookieName)
 			if authRequired && err == nil {
@@ -338,7 +334,17 @@ func isPublicResource(p string) (ok bool) {
 	return isAsset || isLogin
 }
 
+// authHandler is a helper structure that implements [http.Handler].
+type authHandler struct {
+	handler http.Handler
+}
+
+// ServeHTTP implements the [http.Handler] interface for *authHandler.
+func (a *authHandler) ServeHTTP(w http.ResponseWriter, r *http.Request) {
+	optionalAuth(a.handler.ServeHTTP)(w, r)
+}
+
 // optionalAuthHandler returns a authentication handler.
 func optionalAuthHandler(handler http.Handler) http.Handler {
-	return http.HandlerFunc(optionalAuth(handler.ServeHTTP))
+	return &authHandler{handler}
 }
